@@ -246,12 +246,275 @@ func c12Run(c *explore.Ctx, k c12Case) {
 	})
 }
 
+// ---- backlog: several messages with different lifetimes wait together
+
+type c12Backlog struct {
+	subVer byte
+	M      int64   // configured maximum lifetime, 0 none
+	Es     []int64 // publisher expiry per message (-1 absent)
+	gap    int64   // ms between consecutive publishes
+	W      int64   // ms waited after the last publish
+	mode   int     // 1 offline then reconnect, 2 window full
+}
+
+func (k c12Backlog) String() string {
+	return fmt.Sprintf("backlog sub-v%d M=%d E=%v gap=%dms W=%dms mode=%s", k.subVer, k.M, k.Es, k.gap, k.W, c12Modes[k.mode])
+}
+
+func c12Life(E, M int64) int64 {
+	return c12Case{E: E, M: M}.lifetime()
+}
+
+// waited returns how long message i has waited when the backlog is released.
+func (k c12Backlog) waited(i int) int64 { return k.W + int64(len(k.Es)-1-i)*k.gap }
+
+// decidable: no message is within 300 ms of its deadline
+func (k c12Backlog) decidable() bool {
+	for i, E := range k.Es {
+		if L := c12Life(E, k.M); L >= 0 {
+			d := k.waited(i) - L*1000
+			if d < 300 && d > -300 {
+				return false
+			}
+		}
+	}
+	return true
+}
+
+func c12RunBacklog(c *explore.Ctx, k c12Backlog) {
+	cas := func() any {
+		return map[string]any{"case": k.String(), "backlog": true, "sv": k.subVer, "M": k.M, "Es": k.Es, "gap": k.gap, "Wms": k.W, "mode": k.mode}
+	}
+	c.Count("executions", 1)
+	c.Count("states", 1)
+	execBody(c, "C12", cas, func() {
+		cfg := harness.DefaultConfig()
+		cfg.MQTT.MessageExpiry = time.Duration(k.M) * time.Second
+		w := harness.NewWorld(cfg, server.Hooks{})
+		if w.InitErr != nil {
+			c.Fatal("init: %v", w.InitErr)
+			return
+		}
+		p := w.Dial("P")
+		p.Connect(harness.ConnectOpts{ClientID: "pub", Clean: true, Version: refmqtt.V5})
+		connectS := func(name string, clean bool) *harness.Client {
+			s := w.Dial(name)
+			o := harness.ConnectOpts{ClientID: "sub", Clean: clean && k.subVer == refmqtt.V5, Version: k.subVer}
+			if k.subVer == refmqtt.V5 {
+				o.Props = &refmqtt.Props{SessionExpiry: harness.U32(7200)}
+				if k.mode == 2 {
+					o.Props.ReceiveMax = harness.U16(1)
+				}
+			}
+			if ack := s.Connect(o); ack == nil || ack.Code != 0 {
+				c.Fatal("C12: subscriber connect failed: %v", ack)
+				return nil
+			}
+			return s
+		}
+		s := connectS("S1", true)
+		if s == nil {
+			return
+		}
+		s.Subscribe(0, refmqtt.Sub{Filter: "t", QoS: 1})
+		var blocker *refmqtt.Packet
+		if k.mode == 1 {
+			s.Close()
+			vsched.Settle()
+		} else {
+			p.Send(&refmqtt.Packet{Type: refmqtt.PUBLISH, Topic: "t", QoS: 1, PacketID: p.PID(), Payload: []byte("blocker")})
+			vsched.Settle()
+			p.Recv()
+			for _, r := range s.Recv() {
+				if r.P != nil && r.P.Type == refmqtt.PUBLISH {
+					blocker = r.P
+				}
+			}
+			if blocker == nil {
+				c.Fatal("C12: blocker message not delivered")
+				return
+			}
+		}
+		for i, E := range k.Es {
+			pk := &refmqtt.Packet{Type: refmqtt.PUBLISH, Topic: "t", QoS: 1, PacketID: p.PID(), Payload: []byte(fmt.Sprintf("m%d", i))}
+			if E >= 0 {
+				pk.Props = &refmqtt.Props{MessageExpiry: harness.U32(uint32(E))}
+			}
+			p.Send(pk)
+			vsched.Settle()
+			p.Recv()
+			if i < len(k.Es)-1 && k.gap > 0 {
+				vsched.Advance(time.Duration(k.gap) * time.Millisecond)
+			}
+		}
+		vsched.Advance(time.Duration(k.W) * time.Millisecond)
+		if k.mode == 1 {
+			if s = connectS("S2", false); s == nil {
+				return
+			}
+			vsched.Settle()
+		} else {
+			s.Send(&refmqtt.Packet{Type: refmqtt.PUBACK, PacketID: blocker.PacketID})
+			vsched.Settle()
+		}
+		// acknowledge everything that arrives until nothing more comes (window 1 in mode 2)
+		var got []*refmqtt.Packet
+		for round := 0; round < len(k.Es)+2; round++ {
+			rs := s.Recv()
+			if len(rs) == 0 {
+				break
+			}
+			for _, r := range rs {
+				if r.P != nil && r.P.Type == refmqtt.PUBLISH && r.P.QoS > 0 {
+					if string(r.P.Payload) != "blocker" {
+						got = append(got, r.P)
+					}
+					s.Send(&refmqtt.Packet{Type: refmqtt.PUBACK, PacketID: r.P.PacketID})
+				}
+			}
+			vsched.Settle()
+		}
+		var want []string
+		for i, E := range k.Es {
+			L := c12Life(E, k.M)
+			name := fmt.Sprintf("m%d", i)
+			drops := 0
+			for _, d := range w.Drops {
+				if d.Payload == name && strings.Contains(d.Err, "expired") {
+					drops++
+				}
+			}
+			if L >= 0 && k.waited(i) > L*1000 {
+				if drops != 1 {
+					c.Violate("drop-report", fmt.Sprintf("backlog-expired-message-reported-%d-times", drops), cas(), "one OnMsgDropped(expired) for "+name, fmt.Sprint(w.Drops))
+					return
+				}
+				continue
+			}
+			if drops != 0 {
+				c.Violate("drop-report", "backlog-live-message-reported-dropped", cas(), "no drop for "+name, fmt.Sprint(w.Drops))
+				return
+			}
+			want = append(want, name)
+		}
+		var gotN []string
+		for _, g := range got {
+			gotN = append(gotN, string(g.Payload))
+		}
+		if strings.Join(gotN, " ") != strings.Join(want, " ") {
+			cl := "backlog-deliveries-differ"
+			for _, g := range gotN {
+				live := false
+				for _, x := range want {
+					live = live || x == g
+				}
+				if !live {
+					cl = "backlog-expired-message-delivered"
+				}
+			}
+			if cl == "backlog-deliveries-differ" && len(gotN) < len(want) {
+				cl = "backlog-live-message-not-delivered"
+			}
+			c.Violate("expiry", cl, cas(), strings.Join(want, " "), strings.Join(gotN, " ")+" drops "+fmt.Sprint(w.Drops))
+			return
+		}
+		if k.subVer == refmqtt.V5 {
+			for _, g := range got {
+				var i int
+				fmt.Sscanf(string(g.Payload), "m%d", &i)
+				E := k.Es[i]
+				if E <= 0 {
+					if g.Props != nil && g.Props.MessageExpiry != nil && E < 0 && k.M == 0 {
+						c.Violate("remaining-lifetime", "backlog-property-invented", cas(), "absent", fmt.Sprint(*g.Props.MessageExpiry))
+						return
+					}
+					continue
+				}
+				if g.Props == nil || g.Props.MessageExpiry == nil {
+					c.Violate("remaining-lifetime", "backlog-property-absent", cas(), "present for "+string(g.Payload), "absent")
+					return
+				}
+				v := int64(*g.Props.MessageExpiry)
+				wd := k.waited(i)
+				wLo, wHi := wd/1000, (wd+999)/1000
+				capped := k.M > 0 && E > k.M
+				ok := v == E-wLo || (v == E-wHi && v >= 1) || (capped && (v == k.M-wLo || (v == k.M-wHi && v >= 1)))
+				if !ok {
+					cl := "backlog-wrong-value"
+					if v > E {
+						cl = "backlog-value-above-original"
+					} else if v > E-wLo {
+						cl = "backlog-value-ignores-whole-seconds-waited"
+					}
+					c.Violate("remaining-lifetime", cl, cas(), fmt.Sprintf("%s: %d (or %d)", g.Payload, E-wLo, E-wHi), fmt.Sprint(v))
+					return
+				}
+			}
+		}
+		if s.ClosedByBroker() {
+			c.Violate("connection-kept", "subscriber-disconnected", cas(), "open", fmt.Sprint(w.Closeds))
+		}
+		swallowedPanic(c, w, cas)
+	})
+}
+
+func c12Backlogs(c *explore.Ctx) []c12Backlog {
+	var out []c12Backlog
+	maxN := 3
+	if !c.Quick() {
+		maxN = 4
+	}
+	alpha := []int64{-1, 2, 5, 100}
+	var seqs [][]int64
+	var rec func(cur []int64)
+	rec = func(cur []int64) {
+		if len(cur) >= 2 {
+			seqs = append(seqs, append([]int64{}, cur...))
+		}
+		if len(cur) == maxN {
+			return
+		}
+		for _, e := range alpha {
+			rec(append(cur, e))
+		}
+	}
+	rec(nil)
+	for _, sv := range []byte{refmqtt.V5, refmqtt.V311} {
+		for _, M := range []int64{0, 3} {
+			for _, mode := range []int{1, 2} {
+				if mode == 2 && sv != refmqtt.V5 {
+					continue
+				}
+				for _, es := range seqs {
+					for _, gap := range []int64{0, 700} {
+						for _, W := range []int64{600, 2600, 3900, 5600, 31000} {
+							k := c12Backlog{subVer: sv, M: M, Es: es, gap: gap, W: W, mode: mode}
+							if k.decidable() {
+								out = append(out, k)
+							}
+						}
+					}
+				}
+			}
+		}
+	}
+	return out
+}
+
 func runC12(c *explore.Ctx) {
 	c.Level = "model_checking"
-	c.Rule = "E2 (virtual clock): the full grid publisher version x subscriber version x Message Expiry Interval {absent,2,5,100} x configured maximum {none,3s,10s} x waiting mode {online, offline then reconnect, in-flight window full, offline then delivered-unacknowledged then cut and resumed again (the DUP retransmission must carry a value between original minus everything waited and the value of the first transmission)} x waiting time {0, 0.6s, 1.4s, L-1, L-0.6s, L-0.4s, L+0.4s, L+1, L+30} (L = lifetime) x QoS, each on a fresh in-process broker: after the wait the message must be delivered exactly once (W < L) with Message Expiry Interval = original - whole seconds waited (a fraction may count down or up, never to 0), or not delivered and reported dropped as expired exactly once (W > L). states = grid points."
+	c.Rule = "E2 (virtual clock): the full grid publisher version x subscriber version x Message Expiry Interval {absent,2,5,100} x configured maximum {none,3s,10s} x waiting mode {online, offline then reconnect, in-flight window full, offline then delivered-unacknowledged then cut and resumed again (the DUP retransmission must carry a value between original minus everything waited and the value of the first transmission)} x waiting time {0, 0.6s, 1.4s, L-1, L-0.6s, L-0.4s, L+0.4s, L+1, L+30} (L = lifetime) x QoS, each on a fresh in-process broker: after the wait the message must be delivered exactly once (W < L) with Message Expiry Interval = original - whole seconds waited (a fraction may count down or up, never to 0), or not delivered and reported dropped as expired exactly once (W > L). Backlog: every sequence of 2..3 (thorough 4) messages over Message Expiry Interval {absent,2,5,100} published 0 / 0.7 s apart to an offline subscriber (v5, v3.1.1) or behind a full in-flight window, configured maximum {none,3s}, released after {0.6,2.6,3.9,5.6,31}s (cases with a message within 0.3 s of its deadline are not generated): exactly the live messages arrive, in order, each with its own remaining lifetime, and every expired one is reported dropped exactly once. states = grid points."
 	c.Trusted = []string{"vsched virtual clock", "refmqtt codec"}
 	c.Assumptions = []string{"for E above the configured maximum both E-W and M-W are accepted as forwarded value", "W == L (the boundary instant) is not generated"}
 	if rc := replayCase(c); rc != nil {
+		if rc["backlog"] != nil {
+			var es []int64
+			for _, e := range rc["Es"].([]any) {
+				es = append(es, int64(e.(float64)))
+			}
+			c12RunBacklog(c, c12Backlog{byte(rc["sv"].(float64)), int64(rc["M"].(float64)), es, int64(rc["gap"].(float64)), int64(rc["Wms"].(float64)), int(rc["mode"].(float64))})
+			return
+		}
 		c12Run(c, c12Case{byte(rc["pv"].(float64)), byte(rc["sv"].(float64)), int64(rc["E"].(float64)), int64(rc["M"].(float64)), int(rc["mode"].(float64)), int64(rc["Wms"].(float64)), byte(rc["q"].(float64))})
 		return
 	}
@@ -308,6 +571,15 @@ func runC12(c *explore.Ctx) {
 		c.Count("transitions", 1)
 		if u%61 == 0 {
 			c.Sample(cases[u].String())
+		}
+	})
+	bl := c12Backlogs(c)
+	c.Extra["backlog_cases"] = len(bl)
+	c.Units("backlog", len(bl), func(u int) {
+		c12RunBacklog(c, bl[u])
+		c.Count("transitions", int64(len(bl[u].Es)))
+		if u%997 == 0 {
+			c.Sample(bl[u].String())
 		}
 	})
 	c.Count("traces_validated_against_impl", c.Get("executions"))
